@@ -72,10 +72,16 @@ type authEnt struct {
 	P string `json:"p"`
 	M string `json:"m"`
 }
+type prefill struct {
+	N        int `json:"n"`
+	Count    int `json:"count"`
+	Consumed int `json:"consumed"`
+}
 type scenario struct {
-	Nodes []int     `json:"nodes"`
-	Auth  []authEnt `json:"auth"` // when present: a credentials file for the real auth.FileHandler
-	Ops   []op      `json:"ops"`
+	Prefill []prefill `json:"prefill"`
+	Nodes   []int     `json:"nodes"`
+	Auth    []authEnt `json:"auth"` // when present: a credentials file for the real auth.FileHandler
+	Ops     []op      `json:"ops"`
 }
 
 type runner struct {
@@ -258,7 +264,11 @@ func (x *runner) run(idx int, s scenario) {
 	if tbl == nil {
 		tbl = []authEnt{}
 	}
-	x.r.Emit(rec.Ev{"op": "new", "scn": idx, "nodes": s.Nodes, "table": tbl})
+	pf := s.Prefill
+	if pf == nil {
+		pf = []prefill{}
+	}
+	x.r.Emit(rec.Ev{"op": "new", "scn": idx, "nodes": s.Nodes, "table": tbl, "prefill": pf})
 	if len(s.Auth) > 0 {
 		dir, _ := ioutil.TempDir("", "brokerauth")
 		defer os.RemoveAll(dir)
@@ -280,7 +290,13 @@ func (x *runner) run(idx int, s scenario) {
 		w.Auth = h
 	}
 	for _, id := range s.Nodes {
-		if _, err := w.AddNode(id); err != nil {
+		var pre *node.Prefill
+		for _, p := range s.Prefill {
+			if p.N == id {
+				pre = &node.Prefill{Count: p.Count, Consumed: p.Consumed}
+			}
+		}
+		if _, err := w.AddNodePrefilled(id, pre); err != nil {
 			x.r.Emit(rec.Ev{"op": "harness-error", "what": err.Error()})
 			return
 		}
@@ -354,7 +370,7 @@ func (x *runner) step(o op) {
 		if o.Size > len(payload) {
 			payload = payload + "|" + strings.Repeat("x", o.Size-len(payload)-1)
 		}
-		cl.Send(rec.Ev{"kind": "PUBLISH", "t": o.T, "p": payload, "q": o.Q, "r": o.R, "id": o.ID, "dup": o.Dup},
+		cl.Send(rec.Ev{"kind": "PUBLISH", "t": o.T, "p": node.PayloadID([]byte(payload)), "q": o.Q, "r": o.R, "id": o.ID, "dup": o.Dup},
 			mq.Publish(w.Register(o.T), []byte(payload), o.Q, o.R, o.Dup, o.ID))
 		if !o.NoWait {
 			x.settle()
@@ -382,12 +398,42 @@ func (x *runner) step(o op) {
 		if !o.NoWait {
 			x.settle()
 		}
+	case "gate":
+		x.client(o.C).SetGate(o.On)
+	case "burst":
+		// K publishes in a row without waiting for anything in between
+		cl := x.client(o.C)
+		topic := w.Register(o.T)
+		for i := 0; i < o.K; i++ {
+			payload := fmt.Sprintf("%s-%d", o.P, i)
+			if o.Size > 0 {
+				sz := o.Size
+				if o.Size < 0 {
+					sz = []int{0, 1, 10, 200, 3000, 70000}[i%6]
+				}
+				if sz > len(payload) {
+					payload = payload + "|" + strings.Repeat("x", sz-len(payload)-1)
+				}
+			}
+			id := 0
+			if o.Q > 0 {
+				id = 1 + (o.ID+i)%60000
+			}
+			cl.Send(rec.Ev{"kind": "PUBLISH", "t": o.T, "p": node.PayloadID([]byte(payload)), "q": o.Q, "r": false, "id": id, "dup": false},
+				mq.Publish(topic, []byte(payload), o.Q, false, false, id))
+			if o.Ms > 0 && i%o.Ms == o.Ms-1 {
+				x.settle()
+			}
+		}
+		if !o.NoWait {
+			x.settle()
+		}
 	case "ackmsg":
 		// answer the delivery of payload P with a packet of the given kind, using the identifier the broker chose
 		cl := x.client(o.C)
 		id := -1
 		for _, p := range cl.Received() {
-			if p.Type == mq.PUBLISH && string(p.Payload) == o.P && p.QoS > 0 {
+			if p.Type == mq.PUBLISH && node.PayloadID(p.Payload) == o.P && p.QoS > 0 {
 				id = p.ID
 			}
 		}
